@@ -1196,7 +1196,51 @@ impl Evaluator {
                 (_, Some(_)) => nothing(),
             },
             "parse_time" | "parse_time_with_zone" => match (get!(0), get!(1)) {
-                (Some(RVal::Str(_)), Some(RVal::Str(_))) => U,
+                (Some(RVal::Str(t)), Some(RVal::Str(fmt))) => {
+                    // two fully numeric layouts are decided (the documented examples are of this
+                    // kind: a complete date and time, seconds since the epoch as the result);
+                    // everything else about strptime is left to the chrono documentation
+                    let b = t.as_bytes();
+                    let digits = |r: std::ops::Range<usize>| -> Option<i64> {
+                        let x = b.get(r)?;
+                        if x.iter().all(|c| c.is_ascii_digit()) {
+                            std::str::from_utf8(x).ok()?.parse().ok()
+                        } else {
+                            None
+                        }
+                    };
+                    let days_from_civil = |y: i64, m: i64, d: i64| -> i64 {
+                        let y = if m <= 2 { y - 1 } else { y };
+                        let era = if y >= 0 { y } else { y - 399 } / 400;
+                        let yoe = y - era * 400;
+                        let doy = (153 * (if m > 2 { m - 3 } else { m + 9 }) + 2) / 5 + d - 1;
+                        let doe = yoe * 365 + yoe / 4 - yoe / 100 + doy;
+                        era * 146097 + doe - 719468
+                    };
+                    let valid = |y: i64, m: i64, d: i64, hh: i64, mm: i64, ss: i64| -> bool {
+                        let leap = (y % 4 == 0 && y % 100 != 0) || y % 400 == 0;
+                        let dim = [31, if leap { 29 } else { 28 }, 31, 30, 31, 30, 31, 31, 30, 31, 30, 31];
+                        (1970..=9999).contains(&y) && (1..=12).contains(&m) && d >= 1 && d <= dim[(m - 1) as usize] && hh <= 23 && mm <= 59 && ss <= 59
+                    };
+                    if f == "parse_time" && fmt == "%Y-%m-%dT%H:%M:%S" && b.len() == 19 && b[4] == b'-' && b[7] == b'-' && b[10] == b'T' && b[13] == b':' && b[16] == b':' {
+                        if let (Some(y), Some(m), Some(d), Some(hh), Some(mm), Some(ss)) = (digits(0..4), digits(5..7), digits(8..10), digits(11..13), digits(14..16), digits(17..19)) {
+                            if valid(y, m, d, hh, mm, ss) {
+                                return val(RVal::Int((days_from_civil(y, m, d) * 86400 + hh * 3600 + mm * 60 + ss) as i128));
+                            }
+                            return U;
+                        }
+                    }
+                    if f == "parse_time_with_zone" && fmt == "%Y-%m-%d %H:%M:%S %z" && b.len() == 25 && b[4] == b'-' && b[7] == b'-' && b[10] == b' ' && b[13] == b':' && b[16] == b':' && b[19] == b' ' && (b[20] == b'+' || b[20] == b'-') {
+                        if let (Some(y), Some(m), Some(d), Some(hh), Some(mm), Some(ss), Some(zh), Some(zm)) = (digits(0..4), digits(5..7), digits(8..10), digits(11..13), digits(14..16), digits(17..19), digits(21..23), digits(23..25)) {
+                            if valid(y, m, d, hh, mm, ss) && zh <= 14 && zm <= 59 {
+                                let off = (zh * 3600 + zm * 60) * if b[20] == b'-' { -1 } else { 1 };
+                                return val(RVal::Int((days_from_civil(y, m, d) * 86400 + hh * 3600 + mm * 60 + ss - off) as i128));
+                            }
+                            return U;
+                        }
+                    }
+                    U
+                }
                 _ => nothing(),
             },
             // ------------------------------------------------ types
